@@ -67,6 +67,19 @@ class C31(Property):
 
     def cases(self, rng, tier):
         n = 30 if tier == 'quick' else 800
+        # family: derivative queries around the computation of a total coloring with its
+        # randomisation options on (flags set for the coloring must not outlive it)
+        for _ in range(8 if tier == 'quick' else 120):
+            mid = [rng.choice(['compute_totals_single', 'check_totals', 'jacvec', 'get_val'])
+                   for _ in range(rng.randint(0, 2))]
+            yield {'gen_seed': rng.randrange(10 ** 9),
+                   'opts': {'safe_indices': True, 'implicit': rng.random() < 0.3,
+                            'scaling': rng.random() < 0.3, 'array_scaling': True, 'cycles': False},
+                   'cfg': {'nonlinear': None, 'linear': rng.choice([None, 'direct']),
+                           'mode': rng.choice(['fwd', 'rev'])},
+                   'seq': ['run_model', 'compute_totals', 'total_coloring', 'compute_totals'] + mid +
+                          ['compute_totals', 'run_model'],
+                   'qseed': rng.randrange(10 ** 6), 'randomize': [True, rng.random() < 0.5]}
         for _ in range(n):
             cyc = rng.random() < 0.25
             seq = ['run_model']
@@ -103,7 +116,11 @@ class C31(Property):
                 p, info = gm.build_problem(md, cfg=case['cfg'])
                 gm.add_voi(p, md, v)
                 p.driver = om.ScipyOptimizeDriver(optimizer='SLSQP', disp=False)
-                p.driver.declare_coloring(show_summary=False, show_sparsity=False)
+                p.driver.declare_coloring(show_summary=False, show_sparsity=False,
+                                          randomize_seeds=case['randomize'][0] if 'randomize' in case
+                                          else rng.random() < 0.4,
+                                          randomize_subjacs=case['randomize'][1] if 'randomize' in case
+                                          else rng.random() < 0.7)
                 p.setup(mode=case['cfg']['mode'], force_alloc_complex=True)
                 gm.set_auto_ivc_values(p, md)
                 model = p.model
@@ -124,7 +141,18 @@ class C31(Property):
                                 st['max_diff'] = float(np.max(np.abs(out - first_out))) if out.size else 0.0
                                 st['scale'] = float(np.max(np.abs(first_out))) if out.size else 1.0
                         elif call == 'compute_totals':
-                            p.compute_totals()
+                            J = np.atleast_2d(p.compute_totals(return_format='array'))
+                            if first_out is not None:
+                                # derivative queries are deterministic: the same state gives the
+                                # same totals, whatever was asked in between
+                                if 'J0' not in res:
+                                    res['J0'] = J.tolist()
+                                else:
+                                    J0 = np.atleast_2d(np.array(res['J0'], dtype=float))
+                                    sc = max(1.0, float(np.max(np.abs(J0))) if J0.size else 1.0)
+                                    st['J_shape_ok'] = bool(J.shape == J0.shape)
+                                    st['J_diff'] = float(np.max(np.abs(J - J0))) / sc \
+                                        if J.shape == J0.shape and J.size else 0.0
                         elif call == 'compute_totals_single':
                             p.compute_totals(of=[rng.choice(ofs)], wrt=[rng.choice(wrts)])
                         elif call == 'jacvec':
@@ -197,6 +225,12 @@ class C31(Property):
                 if ch:
                     return {'what': 'query changed the model state', 'call': st['call'], 'step': k,
                             'changed': ch}
+            if st['call'] == 'compute_totals' and 'J_diff' in st:
+                jt = 1e-6 if (md.get('cyclic') or case['cfg']['nonlinear'] or
+                              case['cfg'].get('linear') in ('krylov', 'lbgs')) else 1e-9
+                if not st.get('J_shape_ok', True) or not st['J_diff'] <= jt:
+                    return {'what': 'compute_totals from the same state gave different derivatives',
+                            'step': k, 'rel_diff': st['J_diff'], 'call': 'compute_totals'}
             if st['call'] == 'run_model' and 'same_bits' in st and not st['same_bits']:
                 if (md.get('cyclic') or case['cfg']['nonlinear']) and \
                         st['max_diff'] <= 1e-9 * max(1.0, st['scale']):
